@@ -668,7 +668,8 @@ class Interp:
                     if o["kind"] == "list":
                         sigs = nxt.mut(oid).setdefault("sigs", set())
                         new_items = s.heap[oid]["items"][len(o["items"]):]
-                        for it in new_items:
+                        inner_states = s.heap[oid].get("item_states", {})
+                        for j_, it in enumerate(new_items, len(o["items"])):
                             sg = self.item_sig(it, s, tl)
                             if sg not in sigs and s.dead in (None, "continue"):
                                 nxt.mut(oid)["sigs"] = sigs | {sg}
@@ -678,10 +679,13 @@ class Interp:
                                 nxt.mut(oid)["length"] = None
                                 if isinstance(it, Ref):
                                     _import_obj(nxt, s, it.oid)
-                                    self.birth[it.oid] = s
+                                    # an item appended inside a nested loop keeps the state of the iteration that produced it (that
+                                    # state has the facts about the inner loop's element; this round's end state does not)
+                                    prod = inner_states.get(j_, s)
+                                    self.birth[it.oid] = prod
                                     # the same object (allocated before a partition point) can be appended on several paths:
                                     # remember the producing state per list position
-                                    nxt.mut(oid).setdefault("item_states", {})[len(nxt.heap[oid]["items"]) - 1] = s
+                                    nxt.mut(oid).setdefault("item_states", {})[len(nxt.heap[oid]["items"]) - 1] = prod
                                 elif isinstance(it, IntV):
                                     # project the element: a fresh symbol with the candidate bounds (over loop-invariant quantities) that hold
                                     # where it was produced; the bounds are attached to the item and only assumed when the item is drawn
@@ -861,7 +865,7 @@ class Interp:
                 items = o["items"]
                 if not items:
                     if o.get("elem") is not None:
-                        return o["elem"]
+                        return self.draw(o["elem"], st)
                     return None
                 k = self.pick(st, len(items), "list-elem")
                 return self.draw(items[k], st)
@@ -2037,6 +2041,21 @@ class Interp:
             return r
         if name == "count":
             return self.fresh_int(st, "count", 0, L)
+        if name in ("partition", "rpartition") and len(args) == 1:
+            # (head, sep, tail): found -> head + sep + tail == self; not found -> (self, b"", b"") / (b"", b"", self)
+            sepv = self.as_bytes(args[0])
+            k = self.pick(st, 2, name)
+            if k == 0 or sepv is None:
+                empty = BytesV(("const", b""), Lin(0))
+                whole = BytesV(b.term, L)
+                if sepv is None:
+                    u = self.fresh_bytes(st, (name, 0, b.term), maxlen=L)
+                    return TupleV([u, self.fresh_bytes(st, (name, 1, b.term), maxlen=L), self.fresh_bytes(st, (name, 2, b.term), maxlen=L)])
+                return TupleV([whole, empty, empty] if name == "partition" else [empty, empty, whole])
+            head = self.fresh_bytes(st, (name, 0, b.term, sepv.term), maxlen=L)
+            tail = self.fresh_bytes(st, (name, 2, b.term, sepv.term), maxlen=L)
+            st.add_eq(L - head.length - sepv.length - tail.length)
+            return TupleV([head, BytesV(sepv.term, sepv.length), tail])
         if name in ("split", "rsplit", "splitlines"):
             el = self.fresh_bytes(st, ("piece", name, b.term), maxlen=L)
             maxsplit = None
